@@ -55,7 +55,7 @@ fn main() {
         "C04" => { bddprops::c04(&mut out, tier, &mut rng, &mut st); formula::c04_lang(&mut out, tier, &mut rng, &mut st) }
         "C05" => { bddprops::c05(&mut out, tier, &mut rng, &mut st); formula::c05_lang(&mut out, tier, &mut rng, &mut st) }
         "C07" => bddprops::c07(&mut out, tier, &mut rng, &mut st),
-        "C20" => bddprops::c20(&mut out, tier, &mut rng, &mut st),
+        "C20" => { bddprops::c20(&mut out, tier, &mut rng, &mut st); cli::c20_cli(&mut out, tier, &mut rng, &mut st) }
         _ => { eprintln!("unknown property {}", prop); std::process::exit(2); }
     }
     out.flush().unwrap();
